@@ -728,4 +728,475 @@ theorem precedence_main (sem : Sem V) (hsem : SemOK sem) (cmd : OptCommand)
     rw [hdflt'] at hpl
     exact ⟨hfin c hpl, by simp [he]⟩
 
+
+/-- **precedence for backend-specific options**, under the two hypotheses that D14 / D15 force -/
+theorem precedence_backend (sem : Sem V) (cmd : OptCommand)
+    (hc : cmd.setDefaults = true) (hp : cmd.parents = true) (row : OptRow) (hs : row.scope = 2)
+    (hwf : wfBackend row = true) (s : Simple V) (hv : valid sem row s = true)
+    (hstr : fileRawsStr sem row s = true)
+    (hidem : s.cli = none → ∀ c, specBelowCli sem row s = .ok c → sem.isStr c = true → sem.co .guessType c = some c) :
+    pipelineFinal sem cmd row s.toInputs = spec sem row s := by
+  simp only [wfBackend, Bool.and_eq_true, Bool.not_eq_true'] at hwf
+  obtain ⟨⟨⟨⟨hcfg, hearly⟩, hcli⟩, henv⟩, hfile⟩ := hwf
+  simp only [valid, Bool.and_eq_true] at hv
+  obtain ⟨⟨⟨hvc, hve⟩, hvp⟩, hvd⟩ := hv
+  -- shape of the row
+  obtain ⟨v, hv1, hvk, hvt⟩ : ∃ v, row.cli = [v] ∧ v.kind = .typed ∧ v.ty = .guessType := by
+    match hrc : row.cli with
+    | [v] => simp [hrc] at hcli; exact ⟨v, rfl, hcli.1, hcli.2⟩
+    | [] => simp [hrc] at hcli
+    | _ :: _ :: _ => simp [hrc] at hcli
+  obtain ⟨f, hf1, hfk, hft⟩ : ∃ f, row.file = [f] ∧ f.kind = .plain ∧ f.ty = .guessType := by
+    match hrf : row.file with
+    | [f] => simp [hrf] at hfile; exact ⟨f, rfl, hfile.1, hfile.2⟩
+    | [] => simp [hrf] at hfile
+    | _ :: _ :: _ => simp [hrf] at hfile
+  -- both sections can only use key 0
+  have idx : ∀ kv : Option (Nat × V), fileOk sem row kv = true → ∀ k r, kv = some (k, r) → k = 0 := by
+    intro kv h k r hk
+    subst hk
+    simp only [fileOk, hf1] at h
+    rcases k with _ | k
+    · rfl
+    · simp at h
+  have hsame : sameKey s = true := by
+    unfold sameKey
+    cases hpr : s.prof with
+    | none => simp
+    | some kv =>
+      cases hdf : s.dflt with
+      | none => simp
+      | some kv' =>
+        obtain ⟨k, r⟩ := kv
+        obtain ⟨k', r'⟩ := kv'
+        have h1 := idx s.prof hvp k r hpr
+        have h2 := idx s.dflt hvd k' r' hdf
+        simp [h1, h2]
+  have htr : flagsTruthy sem row s = true := by
+    have : ∀ kv : Option (Nat × V), flagOk sem row kv = true := by
+      intro kv
+      unfold flagOk
+      cases kv with
+      | none => rfl
+      | some kr =>
+        obtain ⟨k, r⟩ := kr
+        simp only [hf1]
+        rcases k with _ | k <;> simp [hfk]
+    simp [flagsTruthy, this]
+  obtain ⟨h1, h2⟩ := file_stage sem row s hstr hvp hvd hsame htr
+  obtain ⟨c0, hc0⟩ := specBelowEnv_ok sem row s hvp hvd htr
+  have hpl := pipeline_backend sem cmd row s.toInputs hc hp hs hearly
+  have hbi : s.toInputs.builtin = s.builtin := rfl
+  have hei : s.toInputs.env = s.env := rfl
+  rw [hbi, h2, hc0] at hpl
+  simp only [hei] at hpl
+  -- environment stage
+  obtain ⟨c2, hc2, hspec2⟩ : ∃ c2, applyEnvVar sem row s.env c0 = .ok c2 ∧ specBelowCli sem row s = .ok c2 := by
+    unfold applyEnvVar specBelowCli
+    cases hre : row.env with
+    | none => simp [hre] at henv
+    | some nt =>
+      obtain ⟨n, ty⟩ := nt
+      cases hse : s.env with
+      | none => exact ⟨c0, by simp, by simpa using hc0⟩
+      | some raw =>
+        simp only [envOk, hre, hse] at hve
+        obtain ⟨x, hx⟩ := Option.isSome_iff_exists.mp hve
+        exact ⟨x, by simp [hx, orErr], by simp [hx, orErr]⟩
+  rw [hc2] at hpl
+  simp only at hpl
+  unfold pipelineFinal spec
+  rw [hpl]
+  cases hcl : s.cli with
+  | none =>
+    have hdv : defaultValue sem row c2 = .ok c2 := by
+      unfold defaultValue
+      cases hst : sem.isStr c2 with
+      | false => simp
+      | true =>
+        have := hidem hcl c2 hspec2 hst
+        simp [hv1, firstTy, hvk, hvt, this, orErr]
+    simp [finish, Simple.toInputs, hcl, parseCli, hdv, hspec2]
+  | some ir =>
+    obtain ⟨i, raw⟩ := ir
+    rw [finish_some sem row s c2 _ i raw hcl]
+    cases hv' : row.cli[i]? with
+    | none => simp [hv']
+    | some v' => cases h : cliValue sem v' raw <;> simp [hv', h]
+
+
+/-! ## rejection -/
+
+theorem run_error_of_step (sem : Sem V) (cmd : OptCommand) (row : OptRow) (inp : Inputs V) (s0 : OptStep)
+    (herr : ∀ st, ∃ e, step sem cmd row inp s0 st = .error e) (steps : List OptStep) (hmem : s0 ∈ steps) (st : St V) :
+    ∃ e, run sem cmd row inp steps st = .error e := by
+  induction steps generalizing st with
+  | nil => simp at hmem
+  | cons s rest ih =>
+    simp only [run]
+    cases hs : step sem cmd row inp s st with
+    | error e => exact ⟨e, rfl⟩
+    | ok st' =>
+      rcases List.mem_cons.mp hmem with h | h
+      · subst h
+        obtain ⟨e, he⟩ := herr st
+        rw [he] at hs
+        cases hs
+      · exact ih h st'
+
+theorem pipeline_error_of_step (sem : Sem V) (cmd : OptCommand) (row : OptRow) (inp : Inputs V) (s0 : OptStep)
+    (herr : ∀ st, ∃ e, step sem cmd row inp s0 st = .error e) (hmem : s0 ∈ optSteps) :
+    ∃ e, pipeline sem cmd row inp = .error e := by
+  obtain ⟨e, he⟩ := run_error_of_step sem cmd row inp s0 herr optSteps hmem (init inp)
+  exact ⟨e, by simp [pipeline, he]⟩
+
+theorem secondParse_mem : OptStep.secondParse ∈ optSteps := by decide
+
+/-- every two different flags of one option belong to one mutual-exclusion group -/
+theorem same_dest_flags_conflict : ∀ row ∈ optRows, ∀ a ∈ row.cli, ∀ b ∈ row.cli, a.flag ≠ b.flag → conflicts a b = true := by
+  decide
+
+/-- a command line with two different flags of one option never reaches the handler -/
+theorem two_flags_rejected (sem : Sem V) (cmd : OptCommand) (row : OptRow) (inp : Inputs V) (i j : Nat) (a b : OptCliVar)
+    (ra rb : V) (ha : row.cli[i]? = some a) (hb : row.cli[j]? = some b) (hconf : conflicts b a = true)
+    (hcli : inp.cli = [(i, ra), (j, rb)]) : ∃ e, pipeline sem cmd row inp = .error e := by
+  apply pipeline_error_of_step sem cmd row inp .secondParse _ secondParse_mem
+  intro st
+  have hparse : ∃ e, parseCli sem row inp.cli [] none = .error e := by
+    rw [hcli]
+    simp only [parseCli, ha, List.any_nil]
+    cases hx : cliValue sem a ra with
+    | error e => exact ⟨e, by simp⟩
+    | ok x => exact ⟨.argparse, by simp [hb, hconf]⟩
+  obtain ⟨e, he⟩ := hparse
+  exact ⟨e, by simp [step, he]⟩
+
+
+def allPlain (row : OptRow) : Bool := row.file.all (fun f => f.kind == .plain)
+
+/-- the (at most two) file keys of the option are named together in a `_check_mutually_exclusive` call -/
+def fileKeysCovered (row : OptRow) : Bool :=
+  match row.file with
+  | [] => true
+  | [_] => true
+  | [a, b] => optFileMutex.any (fun g => g.contains a.key && g.contains b.key)
+  | _ => false
+
+theorem rows_file_mutex : ∀ row ∈ optRows, (row.scope == 0 || row.scope == 1) = true → allPlain row = true →
+    fileKeysCovered row = true := by decide
+
+theorem presentKeys_two (a b : OptFileVar) (merged : List (Nat × V)) :
+    presentKeys [a, b] merged 0 =
+      (if (lookup merged 0).isSome then [a.key] else []) ++ (if (lookup merged 1).isSome then [b.key] else []) := by
+  simp only [presentKeys]
+  cases (lookup merged 0).isSome <;> cases (lookup merged 1).isSome <;> simp
+
+theorem fileMutex_of_two (row : OptRow) (merged : List (Nat × V)) (hcov : fileKeysCovered row = true)
+    (i j : Nat) (hij : i ≠ j) (hi : i < row.file.length) (hj : j < row.file.length)
+    (hli : (lookup merged i).isSome = true) (hlj : (lookup merged j).isSome = true) :
+    fileMutexViolated row merged = true := by
+  unfold fileKeysCovered at hcov
+  match hf : row.file with
+  | [] => simp [hf] at hi
+  | [_] => simp [hf] at hi hj; omega
+  | [a, b] =>
+    simp only [hf] at hcov hi hj
+    have hcases : (i = 0 ∧ j = 1) ∨ (i = 1 ∧ j = 0) := by
+      simp only [List.length_cons, List.length_nil] at hi hj
+      omega
+    have h0 : (lookup merged 0).isSome = true := by
+      rcases hcases with ⟨rfl, rfl⟩ | ⟨rfl, rfl⟩
+      · exact hli
+      · exact hlj
+    have h1 : (lookup merged 1).isSome = true := by
+      rcases hcases with ⟨rfl, rfl⟩ | ⟨rfl, rfl⟩
+      · exact hlj
+      · exact hli
+    unfold fileMutexViolated
+    rw [hf, presentKeys_two, h0, h1]
+    rw [List.any_eq_true] at hcov ⊢
+    obtain ⟨g, hg, hgc⟩ := hcov
+    refine ⟨g, hg, ?_⟩
+    simp only [Bool.and_eq_true, List.contains_iff_mem] at hgc
+    simp [List.filter, hgc.1, hgc.2]
+  | _ :: _ :: _ :: _ => simp [hf] at hcov
+
+/-- two different keys of one option in the merged file mapping: the run ends with an error -/
+theorem two_keys_rejected (sem : Sem V) (cmd : OptCommand) (hc : cmd.setDefaults = true) (hp : cmd.parents = true)
+    (row : OptRow) (hwf : wfMain row = true) (hs : (row.scope == 0 || row.scope == 1) = true)
+    (hcov : fileKeysCovered row = true) (inp : Inputs V)
+    (i j : Nat) (hij : i ≠ j) (hi : i < row.file.length) (hj : j < row.file.length)
+    (hli : (lookup (overlay inp.dflt inp.prof) i).isSome = true) (hlj : (lookup (overlay inp.dflt inp.prof) j).isSome = true) :
+    ∃ e, pipeline sem cmd row inp = .error e := by
+  have hm := fileMutex_of_two row (overlay inp.dflt inp.prof) hcov i j hij hi hj hli hlj
+  have hcm : cfgMain sem row inp = .error .invalidConfig := by simp [cfgMain, hm]
+  simp only [wfMain, Bool.and_eq_true, Bool.or_eq_true, beq_iff_eq, bne_iff_ne, ne_eq, Bool.not_eq_true'] at hwf
+  obtain ⟨_, hearly⟩ := hwf
+  simp only [Bool.or_eq_true, beq_iff_eq] at hs
+  rcases hs with h0 | h1
+  · rw [pipeline_initial sem cmd row inp hc hp h0, hcm]
+    cases parseCli sem row inp.cli [] none with
+    | error e => exact ⟨e, rfl⟩
+    | ok f => exact ⟨.invalidConfig, rfl⟩
+  · have he : row.early = false := by
+      rcases hearly with h | h
+      · exact h
+      · omega
+    rw [pipeline_common sem cmd row inp hc hp h1 he, hcm]
+    exact ⟨.invalidConfig, rfl⟩
+
+
+theorem rows_short_plain : ∀ row ∈ optRows, row.scope ≠ 2 → row.file.length ≤ 1 → allPlain row = true := by decide
+
+theorem sameKey_of_short (sem : Sem V) (row : OptRow) (s : Simple V) (hlen : row.file.length ≤ 1)
+    (hp : fileOk sem row s.prof = true) (hd : fileOk sem row s.dflt = true) : sameKey s = true := by
+  have idx : ∀ kv : Option (Nat × V), fileOk sem row kv = true → ∀ k r, kv = some (k, r) → k = 0 := by
+    intro kv h k r hk
+    subst hk
+    simp only [fileOk] at h
+    cases hfv : row.file[k]? with
+    | none => simp [hfv] at h
+    | some fv =>
+      have := (List.getElem?_eq_some_iff.mp hfv).1
+      omega
+  unfold sameKey
+  cases hpr : s.prof with
+  | none => simp
+  | some kv =>
+    cases hdf : s.dflt with
+    | none => simp
+    | some kv' =>
+      obtain ⟨k, r⟩ := kv
+      obtain ⟨k', r'⟩ := kv'
+      simp [idx s.prof hp k r hpr, idx s.dflt hd k' r' hdf]
+
+theorem flagsTruthy_of_allPlain (sem : Sem V) (row : OptRow) (s : Simple V) (h : allPlain row = true) :
+    flagsTruthy sem row s = true := by
+  have : ∀ kv : Option (Nat × V), flagOk sem row kv = true := by
+    intro kv
+    unfold flagOk
+    cases kv with
+    | none => rfl
+    | some kr =>
+      obtain ⟨k, r⟩ := kr
+      cases hfv : row.file[k]? with
+      | none => simp [hfv]
+      | some fv =>
+        have hmem : fv ∈ row.file := List.mem_of_getElem? hfv
+        have := List.all_eq_true.mp h fv hmem
+        simp at this
+        simp [hfv, this]
+  simp [flagsTruthy, this]
+
+
+theorem applyFileVars_error (sem : Sem V) (vars : List OptFileVar) (merged : List (Nat × V)) (k : Nat) (r : V)
+    (hl : lookup merged k = some r) (base : Nat) (hb : base ≤ k) (fv : OptFileVar) (hfv : vars[k - base]? = some fv)
+    (hco : sem.co fv.ty r = none) (cfg : V) : ∃ e, applyFileVars sem vars merged base cfg = .error e := by
+  induction vars generalizing base cfg with
+  | nil => simp at hfv
+  | cons f rest ih =>
+    by_cases hk : base = k
+    · subst hk
+      simp only [Nat.sub_self, List.getElem?_cons_zero, Option.some.injEq] at hfv
+      subst hfv
+      simp only [applyFileVars, hl]
+      cases f.kind <;> simp [hco]
+    · have hlt : base + 1 ≤ k := by omega
+      have hidx : k - base = (k - (base + 1)) + 1 := by omega
+      rw [hidx, List.getElem?_cons_succ] at hfv
+      simp only [applyFileVars]
+      cases hlb : lookup merged base with
+      | none => simpa using ih (base + 1) hlt hfv cfg
+      | some raw =>
+        cases hkind : f.kind with
+        | plain =>
+          cases hc' : sem.co f.ty raw with
+          | none => exact ⟨.configValue, by simp [hc']⟩
+          | some x => simpa [hc'] using ih (base + 1) hlt hfv x
+        | nullIfTrue =>
+          cases hc' : sem.co f.ty raw with
+          | none => exact ⟨.configValue, by simp [hc']⟩
+          | some x => simpa [hc'] using ih (base + 1) hlt hfv _
+        | other => exact ⟨.model, by simp⟩
+
+theorem applyEnv_mem : OptStep.applyEnv ∈ optSteps := by decide
+theorem backendApplyEnv_mem : OptStep.backendApplyEnv ∈ optSteps := by decide
+
+/-- the file stage fails when some key of the merged mapping is not accepted by its validator -/
+theorem pipeline_error_of_bad_key (sem : Sem V) (cmd : OptCommand) (hc : cmd.setDefaults = true) (hp : cmd.parents = true)
+    (row : OptRow) (hscope : row.scope = 0 ∨ row.scope = 1 ∨ row.scope = 2) (hearly : row.scope ≠ 0 → row.early = false)
+    (inp : Inputs V) (k : Nat) (r : V) (hl : lookup (overlay inp.dflt inp.prof) k = some r)
+    (fv : OptFileVar) (hfv : row.file[k]? = some fv) (hco : sem.co fv.ty r = none) :
+    ∃ e, pipeline sem cmd row inp = .error e := by
+  obtain ⟨e, he⟩ := applyFileVars_error sem row.file _ k r hl 0 (Nat.zero_le _) fv (by simpa using hfv) hco inp.builtin
+  have hcm : ∃ e, cfgMain sem row inp = .error e := by
+    unfold cfgMain
+    cases fileMutexViolated row (overlay inp.dflt inp.prof) with
+    | true => exact ⟨_, rfl⟩
+    | false => exact ⟨e, by simp [he]⟩
+  obtain ⟨e', he'⟩ := hcm
+  rcases hscope with h | h | h
+  · rw [pipeline_initial sem cmd row inp hc hp h, he']
+    cases parseCli sem row inp.cli [] none with
+    | error e => exact ⟨e, rfl⟩
+    | ok f => exact ⟨e', rfl⟩
+  · rw [pipeline_common sem cmd row inp hc hp h (hearly (by omega)), he']
+    exact ⟨e', rfl⟩
+  · rw [pipeline_backend sem cmd row inp hc hp h (hearly (by omega)), he]
+    exact ⟨e, rfl⟩
+
+
+theorem pipelineFinal_error (sem : Sem V) (cmd : OptCommand) (row : OptRow) (inp : Inputs V)
+    (h : ∃ e, pipeline sem cmd row inp = .error e) : ∃ e, pipelineFinal sem cmd row inp = .error e := by
+  obtain ⟨e, he⟩ := h
+  exact ⟨e, by simp [pipelineFinal, he]⟩
+
+/-- what the rejection lemma needs to know about a row -/
+def wfReject (row : OptRow) : Bool :=
+  (row.scope == 0 || row.scope == 1 || row.scope == 2 || row.scope == 3) &&
+  (row.scope != 3 || (row.file.isEmpty && row.env.isNone)) &&
+  (row.scope == 0 || !row.early)
+
+theorem rows_wfReject : ∀ row ∈ optRows, wfReject row = true := by decide
+
+theorem invalid_winner_rejected_aux (sem : Sem V) (cmd : OptCommand) (hc : cmd.setDefaults = true) (hp : cmd.parents = true)
+    (row : OptRow) (hwf : wfReject row = true) (hplain : allPlain row = true)
+    (s : Simple V) (e : Err) (hspec : spec sem row s = .error e) (hne : e ≠ .model) :
+    ∃ e', pipelineFinal sem cmd row s.toInputs = .error e' := by
+  apply pipelineFinal_error
+  simp only [wfReject, Bool.and_eq_true, Bool.or_eq_true, beq_iff_eq, bne_iff_ne, ne_eq, Bool.not_eq_true'] at hwf
+  obtain ⟨⟨hscope, hs3⟩, hearly⟩ := hwf
+  have hearly' : row.scope ≠ 0 → row.early = false := by
+    intro h; rcases hearly with h' | h'
+    · exact absurd h' h
+    · exact h'
+  -- a bad key in the merged mapping
+  have badkey : ∀ k r, lookup (overlay s.toInputs.dflt s.toInputs.prof) k = some r → ∀ lower e, fileValue sem row (k, r) lower = .error e →
+      e ≠ .model → ∃ e, pipeline sem cmd row s.toInputs = .error e := by
+    intro k r hl lower e hfv hne'
+    simp only [fileValue] at hfv
+    cases hf : row.file[k]? with
+    | none => simp [hf] at hfv; exact absurd hfv.symm hne'
+    | some fv =>
+      have hmem : fv ∈ row.file := List.mem_of_getElem? hf
+      have hk : fv.kind = .plain := by
+        have := List.all_eq_true.mp hplain fv hmem
+        simpa using this
+      simp only [hf, hk] at hfv
+      split at hfv
+      · simp at hfv
+      · cases hco : sem.co fv.ty r with
+        | some x => simp [hco, orErr] at hfv
+        | none =>
+          have hsc : row.scope = 0 ∨ row.scope = 1 ∨ row.scope = 2 := by
+            rcases hscope with ((h | h) | h) | h
+            · exact Or.inl h
+            · exact Or.inr (Or.inl h)
+            · exact Or.inr (Or.inr h)
+            · rcases hs3 with h' | h'
+              · exact absurd h h'
+              · have : row.file = [] := by simpa using h'.1
+                simp [this] at hf
+          exact pipeline_error_of_bad_key sem cmd hc hp row hsc hearly' s.toInputs k r hl fv hf hco
+  unfold spec at hspec
+  cases hcl : s.cli with
+  | some ir =>
+    obtain ⟨i, raw⟩ := ir
+    simp only [hcl] at hspec
+    cases hv : row.cli[i]? with
+    | none => simp [hv] at hspec; exact absurd hspec.symm hne
+    | some v =>
+      simp only [hv] at hspec
+      apply pipeline_error_of_step sem cmd row s.toInputs .secondParse _ secondParse_mem
+      intro st
+      have : parseCli sem row s.toInputs.cli [] none = .error e := by
+        simp [Simple.toInputs, hcl, parseCli_one, hv, hspec]
+      exact ⟨e, by simp [step, this]⟩
+  | none =>
+    simp only [hcl] at hspec
+    unfold specBelowCli at hspec
+    have hbelow : ∀ e, specBelowEnv sem row s = .error e → e ≠ .model → ∃ e, pipeline sem cmd row s.toInputs = .error e := by
+      intro e hb hne'
+      unfold specBelowEnv at hb
+      cases hpr : s.prof with
+      | some kv =>
+        obtain ⟨k, r⟩ := kv
+        simp only [hpr] at hb
+        exact badkey k r (by simp [Simple.toInputs, hpr, lookup_overlay, lookup]) _ e hb hne'
+      | none =>
+        simp only [hpr] at hb
+        unfold specBelowProfile at hb
+        cases hdf : s.dflt with
+        | some kv =>
+          obtain ⟨k, r⟩ := kv
+          simp only [hdf] at hb
+          exact badkey k r (by simp [Simple.toInputs, hpr, hdf, lookup_overlay, lookup]) _ e hb hne'
+        | none => simp [hdf] at hb
+    cases hre : row.env with
+    | none => simp only [hre] at hspec; exact hbelow e hspec hne
+    | some nt =>
+      obtain ⟨n, ty⟩ := nt
+      cases hse : s.env with
+      | none => simp only [hre, hse] at hspec; exact hbelow e hspec hne
+      | some raw =>
+        simp only [hre, hse] at hspec
+        cases hco : sem.co ty raw with
+        | some x => simp [hco, orErr] at hspec
+        | none =>
+          have henv : ∀ cfg, applyEnvVar sem row s.toInputs.env cfg = .error .configValue := by
+            intro cfg; simp [applyEnvVar, hre, Simple.toInputs, hse, hco, orErr]
+          rcases hscope with ((h | h) | h) | h
+          · apply pipeline_error_of_step sem cmd row s.toInputs .applyEnv _ applyEnv_mem
+            intro st; exact ⟨.configValue, by simp [step, h, henv]⟩
+          · apply pipeline_error_of_step sem cmd row s.toInputs .applyEnv _ applyEnv_mem
+            intro st; exact ⟨.configValue, by simp [step, h, henv]⟩
+          · apply pipeline_error_of_step sem cmd row s.toInputs .backendApplyEnv _ backendApplyEnv_mem
+            intro st; exact ⟨.configValue, by simp [step, isBackend, h, henv]⟩
+          · rcases hs3 with h' | h'
+            · exact absurd h h'
+            · simp [hre] at h'
+
+/-! ## a small concrete semantics for the negation witnesses -/
+
+deriving instance DecidableEq for Except
+
+/-- a small universe of Python values -/
+inductive TV
+  | none | tru | fls | missing
+  | str (s : String) | int (n : Nat) | path (s : String) | bytes (s : String)
+  deriving DecidableEq, Repr
+
+/-- leaf functions of the witnesses: they behave like the real ones on the handful of values used there
+(`guess_type` = `ast.literal_eval` with fallback to the string itself; it raises on a non-string; `Path`,
+`str.encode`, reading a file) -/
+def toySem : Sem TV where
+  co ty v :=
+    match ty, v with
+    | .guessType, .str s =>
+      if s == "'1'" then some (.str "1")
+      else if s == "1" then some (.int 1)
+      else if s == "7" then some (.int 7)
+      else if s == "9877" then some (.int 9877)
+      else some (.str s)
+    | .guessType, _ => Option.none
+    | .path, .str s => some (.path s)
+    | .checkBoolean, .tru => some .tru
+    | .checkBoolean, .fls => some .fls
+    | .strEncode, .str s => some (.bytes s)
+    | .readBytesCfg, .str s => some (.bytes ("contents of " ++ s))
+    | .readBytesCli, .str s => some (.bytes ("contents of " ++ s))
+    | _, _ => Option.none
+  isStr v := match v with
+    | .str _ => true
+    | _ => false
+  truthy v := v == .tru
+  noneV := .none
+  trueV := .tru
+
+/-- the row of the generated table for an option (`owner` = backend module / sub-command / "") -/
+def rowOf (owner dest : String) : Option OptRow := optRows.find? (fun r => r.owner == owner && r.dest == dest)
+
+theorem rowOf_mem {owner dest : String} {row : OptRow} (h : rowOf owner dest = some row) : row ∈ optRows :=
+  List.mem_of_find?_eq_some h
+
 end Replicat.Options
